@@ -364,6 +364,14 @@ where
             return Err(ZiporaError::invalid_data("File does not exist"));
         }
 
+        // The file must at least hold a complete header
+        let file_size = std::fs::metadata(&file_path)
+            .map_err(|e| ZiporaError::io_error(&format!("Failed to get file size: {}", e)))?
+            .len();
+        if file_size < HEADER_SIZE as u64 {
+            return Err(ZiporaError::invalid_data("File too small for header"));
+        }
+
         // Create memory mapping
         let mmap = Self::create_mmap(&file_path, &config)?;
         
@@ -380,6 +388,15 @@ where
         // Initialize pointers and validate
         vec.update_pointers()?;
         vec.validate_header()?;
+
+        // The header must not promise more data than the file actually holds
+        let needed = (vec.capacity() as u64)
+            .checked_mul(std::mem::size_of::<T>() as u64)
+            .and_then(|d| d.checked_add(HEADER_SIZE as u64))
+            .ok_or_else(|| ZiporaError::invalid_data("Capacity overflows file size"))?;
+        if needed > file_size {
+            return Err(ZiporaError::invalid_data("Header capacity exceeds file size"));
+        }
 
         Ok(vec)
     }
